@@ -192,8 +192,14 @@ def _run_klatt(case, d):
         shutil.copy(os.path.join(core.REPO, "tests", "files", "bobby.KlattGrid"), fn0)
     else:
         txt, exp = write_klatt(rng, rng.choice([1.5, 0.8696875, 2.0, 1.194625]))
-        with open(fn0, "w", encoding="utf-8") as fh:
-            fh.write(txt)
+        # the encodings Praat itself writes: UTF-8, or UTF-16 with a byte order mark (big endian on most installations)
+        enc = rng.choice(["utf-8", "utf-8", "utf-16", "utf-16-be-bom"])
+        if enc == "utf-16-be-bom":
+            with open(fn0, "wb") as fh:
+                fh.write(b"\xfe\xff" + txt.encode("utf-16-be"))
+        else:
+            with open(fn0, "w", encoding=enc, newline="") as fh:
+                fh.write(txt)
     kg = klattgrid.openKlattgrid(fn0)
     d0 = _dump_kg(kg)
     if exp is not None:
